@@ -473,8 +473,10 @@ def _sym_repeat(seq, n):
     """seq * n for a symbolic count: an allocation proportional to a symbolic value.  Counts against the work budget
     (WorkBound when the count may exceed it), otherwise forks over the feasible counts."""
     w = ForkingRange.work
-    budget = w[0] if w is not None else 4096
+    budget = (w[0] // 8) if w is not None else 512     # an element costs at least one loop iteration per bit read
     if n > budget:
+        if n >= (1 << 29):   # prefer a witness whose replay is unmistakable (allocation fails under the replay's rlimit)
+            raise WorkBound("allocation proportional to a symbolic count (>= 2^29 elements)")
         raise WorkBound("allocation proportional to a symbolic count beyond the work budget")
     k = 0
     while True:
